@@ -256,9 +256,12 @@ def check(prog, run):
     rn = lexer.find_method("_read_number")
     shapes.require(rn is not None, "C02.V1: Lexer._read_number not found")
     run.looked_at(rn)
-    first = rn.node.body[0]
-    if isinstance(first, ast.Expr) and isinstance(first.value, ast.Constant):
-        first = rn.node.body[1]
+    # the capture: the first statement of the body that touches the cursor at all (statements before it that neither read nor move
+    # `self._position` - a flag initialisation, a docstring - do not matter)
+    def _touches_cursor(st):
+        return any((isinstance(x, ast.Attribute) and x.attr == "_position") or (_is_self_call(x) and x.func.attr.startswith("_read"))
+                   for x in ast.walk(st))
+    first = next((st for st in rn.node.body if _touches_cursor(st)), rn.node.body[0])
     r.instance("start capture `%s`" % norm_stmt(first))
     if not (isinstance(first, ast.Assign) and ast.unparse(first.value) == "self._position" and isinstance(first.targets[0], ast.Name)):
         run.report(r, "%s:Lexer._read_number:start-capture" % lexrules.LEXER, rn.where(first), "the first statement does not capture self._position")
